@@ -75,11 +75,14 @@ def make_sim(r, cls=None, c_reuse=None, strip_forks=None, caps=None, delays=None
              strip_forks=case['strip_forks'] if strip_forks is None else strip_forks)
 
 
-def simulate(r, sim, shift=0.0, scale=1.0, capture=True, **prop_kw):
+def simulate(r, sim, shift=0.0, scale=1.0, capture=True, cap_time=None, **prop_kw):
     W.apply_stim(sim, r.b, r.stim, shift=shift, scale=scale)
     sim.c_prop(**prop_kw)
     if capture:
-        sim.c_to_s()
+        if cap_time is None:
+            sim.c_to_s()
+        else:
+            sim.c_to_s(time=cap_time)       # sampling time given: initial/final value, arrival and stabilisation time must not depend on it
     return sim
 
 
